@@ -16,6 +16,10 @@ func ToPublicKey(pub []byte) *ecdsa.PublicKey {
 		return nil
 	}
 	x, y := elliptic.Unmarshal(curve(), pub)
+	if x == nil || y == nil {
+		// not the uncompressed form of a point on the curve
+		return nil
+	}
 	return &ecdsa.PublicKey{Curve: curve(), X: x, Y: y}
 }
 
